@@ -111,7 +111,7 @@ Definition base_class : list (string * string * mclass) := [
   ("IGXMLScanner", "fICHandler", PerParse);
   ("IGXMLScanner", "fLocationPairs", Infra);           (* cleared at use (parseSchemaLocation) *)
   ("IGXMLScanner", "fDTDElemNonDeclPool", PerParse);
-  ("IGXMLScanner", "fSchemaElemNonDeclPool", Cache);   (* fault-in decls keyed by name; attacked by the correspondence *)
+  ("IGXMLScanner", "fSchemaElemNonDeclPool", PerParse);   (* fault-in decls: a decl found here changes lax/xsi:type validation (F15u) *)
   ("IGXMLScanner", "fElemCount", PerParse);
   ("IGXMLScanner", "fAttDefRegistry", PerParse);
   ("IGXMLScanner", "fUndeclaredAttrRegistry", PerParse);
@@ -151,7 +151,7 @@ Definition base_class : list (string * string * mclass) := [
   ("SGXMLScanner", "fSchemaGrammar", Cache);           (* dummy grammar object, created once *)
   ("SGXMLScanner", "fSchemaValidator", PerParse);
   ("SGXMLScanner", "fICHandler", PerParse);
-  ("SGXMLScanner", "fElemNonDeclPool", Cache);
+  ("SGXMLScanner", "fElemNonDeclPool", PerParse);        (* as IG fSchemaElemNonDeclPool (F15u) *)
   ("SGXMLScanner", "fElemCount", PerParse);
   ("SGXMLScanner", "fAttDefRegistry", PerParse);
   ("SGXMLScanner", "fUndeclaredAttrRegistry", PerParse);
@@ -214,12 +214,8 @@ Definition overrides : list (string * string * mclass) := [
 
 (** (inventory, member, finding id): known offenders of the unchanged tree (known-findings.d/C15.json) *)
 Definition exceptions : list (string * string * string) := [
-  ("IGXMLScanner", "fSkipDTDValidation", "F21");   (* fSkipDTDValidation = fSkipDTDValidation && fDoSchema *)
-  ("SGXMLScanner", "fDoNamespaces", "F21b");        (* fDoNamespaces = true  (schema-only scanner forces it) *)
-  ("SGXMLScanner", "fDoSchema", "F21b");            (* fDoSchema = true *)
-  ("IGXMLScanner", "fXMLVersion", "F15v");          (* never reset: sticky across parses *)
-  ("WFXMLScanner", "fXMLVersion", "F15v");
-  ("DGXMLScanner", "fXMLVersion", "F15v");
-  ("SGXMLScanner", "fXMLVersion", "F15v");
-  ("ReaderMgr", "fXMLVersion", "F15v")
+  ("SGXMLScanner", "fDoNamespaces", "F21b");       (* fDoNamespaces = true  (schema-only scanner forces it) *)
+  ("SGXMLScanner", "fDoSchema", "F21b")            (* fDoSchema = true *)
 ].
+(* history: F21 (fSkipDTDValidation written by IGXMLScanner::scanReset), F15v (fXMLVersion never reset) and F15u
+   (schema undeclared-element pools never cleared) were exceptions until the fix: commits ff70eac, b5f9279, 5e37b52. *)
